@@ -197,19 +197,32 @@ theorem checkParam_mono (g : GoMap) (prot : Bool) (l : GoVal) {v v' : GoVal}
   · exact ⟨h.1, h5 h.2⟩
   · exact ⟨h.1, h4 h.2⟩
 
-/-- a `crit` entry and its decoded form: still an integer / text, and present in the bucket
-    under the same normalised label -/
-theorem critLabel_normValN (g : GoMap) {l : GoVal} (hl : (canInt l || canTstr l) = true) :
+/-- a `crit` entry (an integer one within int64: a `uint64` above that is not a label since
+    0eeddbc, and its decoded form `int64`-typed with the same out-of-range value is not a Go
+    value at all) and its decoded form: still an integer / text, and present in the bucket under
+    the same normalised label -/
+theorem critLabel_normValN (g : GoMap) {l : GoVal} (hl : (canInt l || canTstr l) = true)
+    (hr : ∀ k n, l = .int k n → n ≤ maxInt64) :
     (canInt (normValN l) || canTstr (normValN l)) = true ∧
       hasLabel g (normValN l) = hasLabel g l := by
   cases l <;> simp [canInt, canTstr] at hl
   case int k n =>
     refine ⟨rfl, ?_⟩
-    exact C13.hasLabel_congr_norm g g rfl _ _ rfl (by simp [normValN, normVal, normalizeLabel])
-  case str b => exact ⟨rfl, rfl⟩
+    have hle := hr k n rfl
+    have h1 : normalizeLabel (normValN (.int k n)) = normalizeLabel (.int k n) := by
+      show normalizeLabel (.int .i64 n) = _
+      rw [normalizeLabel_int_of_le _ hle, normalizeLabel_int_of_le _ hle]
+    exact C13.hasLabel_congr_norm g g rfl _ _ h1 (by rw [h1, normalizeLabel_int_of_le _ hle]; simp)
+  case str b =>
+    refine ⟨?_, rfl⟩
+    show (canInt (.str b) || canTstr (.str b)) = true
+    simpa [canInt, canTstr] using hl
 
-/-- `ensureCritical` passes on the decoded form of a `crit` value it passed on -/
-theorem ensureCritical_normValN (g : GoMap) (v : GoVal) (h : ensureCritical v g = true) :
+/-- `ensureCritical` passes on the decoded form of a `crit` value it passed on (integer entries
+    within int64) -/
+theorem ensureCritical_normValN (g : GoMap) (v : GoVal)
+    (hr : ∀ ls, v = .arr ls → ∀ x ∈ ls, ∀ k n, x = .int k n → n ≤ maxInt64)
+    (h : ensureCritical v g = true) :
     ensureCritical (normValN v) g = true := by
   cases v <;> simp only [ensureCritical, Bool.false_eq_true] at h
   case arr ls =>
@@ -220,7 +233,7 @@ theorem ensureCritical_normValN (g : GoMap) (v : GoVal) (h : ensureCritical v g 
     intro y hy
     obtain ⟨x, hx, rfl⟩ := List.mem_map.mp hy
     obtain ⟨hc, hh⟩ := h.2 x hx
-    obtain ⟨hc', hh'⟩ := critLabel_normValN g hc
+    obtain ⟨hc', hh'⟩ := critLabel_normValN g hc (hr ls rfl x hx)
     exact ⟨hc', by rw [hh']; exact hh⟩
 
 /-- the per-label checks give the same (accepting) verdict on the decoded normal form -/
@@ -232,7 +245,13 @@ theorem checkParam_normValN (g : GoMap) (prot : Bool) (l : GoVal) {d : Nat} {v :
     rw [normValN_leaf hn]
     exact checkParam_normVal g prot l ((rtVal_leaf d hn).mp hv) hu h
   | true =>
-    apply checkParam_mono g prot l _ (ensureCritical_normValN g v) _ _ _ h
+    have hr : ∀ ls, v = .arr ls → ∀ x ∈ ls, ∀ k n, x = .int k n → n ≤ maxInt64 := by
+      rintro ls rfl x hx k n rfl
+      simp only [RTVal] at hv
+      have := (rtList_iff _ _).mp hv.2.2 _ hx
+      simp only [RTVal, FlatVal, int64Range] at this
+      simp only [maxInt64]; omega
+    apply checkParam_mono g prot l _ (ensureCritical_normValN g v hr) _ _ _ h
     all_goals
       cases v <;> simp only [isNode, reduceCtorEq] at hn <;>
         simp [canInt, canTstr, tstrOrUintOK, canUint, canBstr, isCsigValue]
@@ -250,7 +269,7 @@ theorem validate_normEntryN {d : Nat} {g : GoMap} (prot : Bool) (hf : NestedMapA
   · simp only [normEntryN]; rw [normalizeLabel_normVal (hf e he).1, h1]
   · have hhas : ∀ x, normalizeLabel x ≠ none → hasLabel g x = hasLabel (g.map normEntryN) x :=
       fun x hx => C13.hasLabel_congr_norm g _ (normLabels_normEntryN hf).symm x x rfl hx
-    rw [← C13.checkParam_congr g _ hhas]
+    rw [← C13.checkParam_congr g _ hhas hok.1 (labelsOK_normEntryN hf hok).1]
     exact checkParam_normValN g prot l (hf e he).2 (hu e he) h2
 
 /-! ### the wire item of a header map with nested values -/
@@ -972,7 +991,8 @@ theorem protected_bucket_roundtrip_nested_needs_distinct :
   have hv : validateHeaderParameters [(GoVal.int .i64 15, .map exDupClaims)] true = true := by
     simp [validateHeaderParameters, validateLoop, normalizeLabel, wrap64, checkParam]
   refine ⟨?_, hv, ?_, ?_⟩
-  · simp [setCWTClaims, exDupClaims, GoMap.lookup, GoVal.keyEq, canTstr, GoMap.set, GoMap.has, lbl]
+  · simp [setCWTClaims, exDupClaims, GoMap.lookup, GoVal.keyEq, canTstr, utf8Valid, GoMap.set,
+      GoMap.has, lbl]
   · simp only [exDupClaims] at hv
     simp [encodeBucket, encCfg, hv, exDupClaims, lbl, encodePairs, encodeAny, encInt, encTstr,
       encHead, encBstr, HW.shortest, headBytes, hs, sortPairs_one, concatPairs]
